@@ -142,6 +142,21 @@ CHECKS['C03'] = dict(
     technique='machine-checked finite-domain proof (Coq, vm_compute) over skeletons regenerated from the source + line-level injection correspondence',
 )
 
+CHECKS['C04'] = dict(
+    text=('Proof over a model of the parent-side control logic (is_alive / wait / terminate / close of thread, process and persistent process '
+          'workers) against a child of any class (cooperative, swallowing, blocked in C, interpreter lock held, stopped): for every state and '
+          'operation a call issues at most four blocking primitives, each bounded by the caller\'s finite timeout; the returned boolean equals the '
+          'child\'s absence at return (an invariant of every history); on a dead or never-run worker every call returns True at once and changes '
+          'nothing; terminate(force=True) of a process worker leaves no child. All by exhaustive case analysis in Coq. The REAL methods are run '
+          'on every history of length <= 3/4 against a scripted child that records each blocking call with its timeout, and compared with the '
+          'model; real unresponsive children (C sleep holding the interpreter lock, SIGSTOP, swallowing loop, sleep) are terminated under a '
+          'wall-clock bound.'),
+    design='5/C04',
+    note=('Wall-clock itself and kernel signal semantics are assumptions (the reaction table of Ctrl/Model.v), exercised on real children. Remote '
+          'kinds: the parent side forwards to the server-side process logic; covered by real children in the thorough tier only. ' + COMMON_NOTE),
+    technique='machine-checked proof by exhaustive case analysis (Coq) + differential correspondence with a scripted child + real unresponsive children',
+)
+
 NOT_YET = {}
 
 
